@@ -7,17 +7,20 @@ rule language (docs/usage/acl.rst and the header comments of the shipped ruleboo
   * a rule is a sequence of blank-separated tokens; a configuration line ("row": no newline, no leading/trailing
     blanks) is a sequence of blank-separated words; token i is matched against word i;
   * a literal token matches exactly that word; `*` matches exactly one (blank-free) word and binds it;
-    `*/re/` matches one word that fits `re` and binds it (`*/re/suffix`: the word is <something fitting re> + suffix,
-    the <something> is bound);
+    `*/re/` binds whatever `re` matches there (`*/re/suffix`: <something fitting re> + suffix, the <something> is bound);
+    the compiler passes the regex through, so this is one word unless the rule author's regex itself can consume blanks
+    (`.*`), in which case it may run over several words - then every way of cutting the row is feasible and the real key
+    has to be one of the feasible keys (`ref_match_all`);
   * a trailing `~` needs at least one further word and binds the rest of the line (`prefix~`: the rest of the line
     starts with `prefix`, is longer than it, the remainder is bound);
   * a trailing `~/re/` needs at least one further word and the rest of the line must START with a match of `re`
-    (nothing is bound, no word boundary afterwards: `ip routing vrf ~/(?!MEth|MGMT)/`);
+    (nothing is bound, no word boundary afterwards: `ip routing vrf ~/(?!MEth|MGMT)/`); `~/re/` is outside the property
+    statement: it is only exercised with a plain regex and on single-blank rows;
   * a trailing `literal...` is a prefix match: word i starts with `literal`, anything may follow;
   * otherwise the match ends at a word boundary: after the last token the line either ends or goes on with further
     words (`mpls` matches `mpls` and `mpls ldp`, not `mplsx`) - every rule is a prefix match in words;
-  * a token that is a blank-free regular expression (`mpls$`, `(ftp|FTP)`, `Vlan\\d+`) matches one word fitting that
-    regex, binds nothing (this is the documented "any string fitting the regex" reading, applied word-wise);
+  * a token that is a blank-free regular expression (`mpls$`, `(ftp|FTP)`, `Vlan\\d+`) matches what that regex matches
+    (one word, unless the regex can consume blanks), binds nothing (the documented "any string fitting the regex" reading);
   * `(?i)` makes the whole rule case-insensitive (documented as a prefix; shipped texts also have it inside a
     placeholder regex; it is a flag, not a word of the rule);
   * the key is the tuple of bound strings, in order;
@@ -236,7 +239,8 @@ def split_row(row):
     return words, starts
 
 
-def ref_match_tokens(icase, toks, row):
+def _ref_match_words(icase, toks, row):
+    """word-wise matcher (every regex token can only cover one word)"""
     words, starts = split_row(row)
     nw = len(words)
     key = []
@@ -283,6 +287,125 @@ def ref_match_tokens(icase, toks, row):
         else:
             raise AssertionError(kind)
     return True, tuple(key)
+
+
+_span_cache = {}
+
+
+def _spans(tok):
+    """a regex token whose regex can consume blanks: the compiler passes the regex through, so it binds whatever the regex
+    matches, possibly several words"""
+    k = tok
+    r = _span_cache.get(k)
+    if r is None:
+        r = tok[0] in ("STARRE", "RAW") and _can_span(tok[1])
+        _span_cache[k] = r
+    return r
+
+
+_ctx_rx = {}
+
+
+def _span_fits(rx, row, pos, end, icase):
+    """does `rx` match exactly row[pos:end], seen in the context of the whole row ('$' and look-aheads see the real rest)"""
+    k = (rx, len(row) - end, icase)
+    c = _ctx_rx.get(k)
+    if c is None:
+        c = re.compile("(?:%s)(?=[\\s\\S]{%d}\\Z)" % (rx, len(row) - end), re.I if icase else 0)
+        _ctx_rx[k] = c
+    return c.match(row, pos) is not None
+
+
+def _ref_match_general(icase, toks, row):
+    """position-wise matcher for rules with a regex token that may run over blanks -> set of feasible keys"""
+    n = len(row)
+    out = set()
+
+    def word_end(p):
+        e = p
+        while e < n and not row[e].isspace():
+            e += 1
+        return e
+
+    def after(ti, e, key):
+        """token ti ended at e (a word boundary)"""
+        if ti == len(toks) - 1:
+            out.add(tuple(key))
+            return
+        if e >= n:
+            return
+        run = e
+        while run < n and row[run].isspace():
+            run += 1
+        nxt = toks[ti + 1]
+        starts = range(e + 1, run + 1) if (_spans(nxt) or nxt[0] in ("TILDE", "TILDERE")) else (run,)
+        for p in starts:
+            at(ti + 1, p, key)
+
+    def at(ti, p, key):
+        t = toks[ti]
+        kind = t[0]
+        if p >= n and kind not in ("STARRE", "RAW"):
+            return
+        if _spans(t):
+            suffix = t[2] if kind == "STARRE" else ""
+            rx = "(?:%s)%s" % (t[1], re.escape(suffix)) if suffix else t[1]
+            for e in range(p, n + 1):
+                if e < n and not row[e].isspace():
+                    continue
+                if _span_fits(rx, row, p, e, icase):
+                    after(ti, e, key + [row[p:e - len(suffix)]] if kind == "STARRE" else key)
+            return
+        if kind in ("TILDE", "TILDERE"):
+            rest = row[p:]
+            if kind == "TILDE":
+                pre = t[1]
+                if len(rest) > len(pre) and _eq(rest[:len(pre)], pre, icase):
+                    out.add(tuple(key + [rest[len(pre):]]))
+            elif re.compile(t[1], re.I if icase else 0).match(rest) is not None:
+                out.add(tuple(key))
+            return
+        e = word_end(p)
+        w = row[p:e]
+        if not w:
+            return
+        if kind == "LIT":
+            if _eq(t[1], w, icase):
+                after(ti, e, key)
+        elif kind == "STAR":
+            after(ti, e, key + [w])
+        elif kind == "STARRE":
+            suffix = t[2]
+            if suffix and (len(w) < len(suffix) or not _eq(w[len(w) - len(suffix):], suffix, icase)):
+                return
+            rx = "(?:%s)%s" % (t[1], re.escape(suffix)) if suffix else t[1]
+            if _word_fits(rx, w, e == n, icase):
+                after(ti, e, key + [w[:len(w) - len(suffix)]])
+        elif kind == "RAW":
+            if _word_fits(t[1], w, e == n, icase):
+                after(ti, e, key)
+        elif kind == "DOTS":
+            if _eq(w[:len(t[1])], t[1], icase):
+                out.add(tuple(key))
+        else:
+            raise AssertionError(kind)
+
+    at(0, 0, [])
+    return out
+
+
+def ref_match_all(icase, toks, row):
+    """-> list of the feasible keys (empty: no match). Exactly one key unless a regex token can run over blanks and the
+    row can be cut in several ways"""
+    if any(_spans(t) for t in toks):
+        return sorted(_ref_match_general(icase, toks, row))
+    ok, key = _ref_match_words(icase, toks, row)
+    return [key] if ok else []
+
+
+def ref_match_tokens(icase, toks, row):
+    keys = ref_match_all(icase, toks, row)
+    return (True, keys[0]) if keys else (False, None)
 
 
 def ref_match(pattern, row):
@@ -430,8 +553,8 @@ def mutations(ws):
 # part 1: exhaustive grammar
 LITS = ["a", "ab", "no"]
 INNER = ["*", "*/[ab]+/", "*/(a|n)o?/"]
-FINALS = ["~", "ab...", "~/[ab]+/", "~/(?!a)/"]
-ROW_WORDS = ["a", "ab", "no", "A", "b", "noa", "abc"]
+FINALS = ["~", "ab...", "~/[ab]+/"]
+ROW_WORDS = ["a", "ab", "no", "A", "b", "abc", "noa"]   # quick tier: the first six
 PREFIX = "no"   # cisco's negation word
 
 
@@ -445,9 +568,9 @@ def grammar_patterns(max_tokens):
                 yield "(?i)" + p
 
 
-def grammar_rows(max_words):
+def grammar_rows(max_words, alphabet=None):
     for n in range(1, max_words + 1):
-        for ws in itertools.product(ROW_WORDS, repeat=n):
+        for ws in itertools.product(alphabet or ROW_WORDS, repeat=n):
             yield " ".join(ws)
 
 
@@ -515,11 +638,7 @@ def _can_span(rx):
 
 
 def classify(what, toks, row, exp_ok, got_ok):
-    """stable key of a disagreement; root causes that show in every rulebook kind get a kind-independent key"""
-    if got_ok and not exp_ok and re.search(r"\s\s", row) and any(t[0] == "TILDERE" and "(?!" in t[1] for t in toks):
-        return "~/re/:negative-lookahead-defeated-by-doubled-blank"
-    if got_ok and any(t[0] in ("STARRE", "RAW") and _can_span(t[1]) for t in toks):
-        return "shipped-rule:placeholder-regex-spans-words"
+    """stable key of a disagreement"""
     if got_ok == exp_ok:
         return what + ":key"
     return what + ":match" + ("-extra" if got_ok else "-missed")
@@ -530,7 +649,8 @@ def check_regex_on_rows(ctx, what, case_base, rx, icase, toks, notes, rows, key_
     nm = nn = 0
     for row in rows:
         ctx.ev += 1
-        exp_ok, exp_key = ref_match_tokens(icase, toks, row)
+        keys = ref_match_all(icase, toks, row)
+        exp_ok = bool(keys)
         m = rx.match(row)
         got_ok = m is not None
         if exp_ok:
@@ -541,10 +661,10 @@ def check_regex_on_rows(ctx, what, case_base, rx, icase, toks, notes, rows, key_
             ctx.fail(classify(what, toks, row, exp_ok, got_ok),
                      "%s: the compiled regex %s a row the rule language says it %s"
                      % (what, "matches" if got_ok else "rejects", "rejects" if got_ok else "matches"),
-                     dict(case_base, row=row, regex=rx.pattern, flags=int(rx.flags)), [exp_ok, exp_key], [got_ok, m.groups() if m else None])
-        elif got_ok and key_check and "rawgroups" not in notes and tuple(m.groups()) != exp_key:
+                     dict(case_base, row=row, regex=rx.pattern, flags=int(rx.flags)), [exp_ok, keys], [got_ok, m.groups() if m else None])
+        elif got_ok and key_check and "rawgroups" not in notes and tuple(m.groups()) not in keys:
             ctx.fail(classify(what, toks, row, exp_ok, got_ok), "%s: the extracted key is not the words bound to the placeholders" % what,
-                     dict(case_base, row=row, regex=rx.pattern, flags=int(rx.flags)), [exp_ok, exp_key], [got_ok, m.groups()])
+                     dict(case_base, row=row, regex=rx.pattern, flags=int(rx.flags)), [exp_ok, keys], [got_ok, m.groups()])
     return nm, nn
 
 
@@ -569,7 +689,8 @@ def check_reverse_template(ctx, what, case_base, template, toks, prefix, icase, 
 
 def run_grammar(ctx, tier, part, nparts):
     max_tokens = 3 if tier == "quick" else 4
-    rows = list(grammar_rows(5))
+    alphabet = ROW_WORDS[:6] if tier == "quick" else ROW_WORDS
+    rows = list(grammar_rows(5, alphabet))
     pats = list(grammar_patterns(max_tokens))
     for i, p in enumerate(pats):
         if i % nparts != part:
@@ -584,7 +705,7 @@ def run_grammar(ctx, tier, part, nparts):
         if nm and nn and (icase or any(t[0] != "LIT" for t in toks)):
             ctx.nontrivial.add(_hash("g", p))
         # reverse template of the patching rulebook, on the matching rows with <= len(toks)+1 words
-        few = rows[:sum(7 ** k for k in range(1, min(len(toks) + 1, 5) + 1))]
+        few = rows[:sum(len(alphabet) ** k for k in range(1, min(len(toks) + 1, 5) + 1))]
         tmpl = rb_patching._make_reverse(p, PREFIX)
         check_reverse_template(ctx, "patching._make_reverse", case, tmpl, toks, PREFIX, icase, few)
         tmpl2 = rb_patching._make_reverse(p, PREFIX, flags=rx.flags)
@@ -603,6 +724,9 @@ def _rows_for(toks, icase, prefix):
         rows |= mutations(ws)
         if ws and ws[0].lower() == prefix:
             rows |= mutations(ws[1:])
+    if any(t[0] == "TILDERE" for t in toks):
+        # `~/re/` is outside the property statement: only single-blank rows (the regex is inlined after `\\s+`)
+        rows = {r for r in rows if r == " ".join(r.split(" ")) and "\t" not in r and "  " not in r}
     return sorted(rows)
 
 
@@ -767,21 +891,24 @@ def check_deploy_paths(ctx, case_base, deploying, ref_rules, rows, contexts=({},
 
 
 def run_deploy_nested(ctx, part):
-    """a small nested deploy rulebook with overlapping siblings, through the real compiler"""
+    """a small nested deploy rulebook whose sibling rules have pairwise disjoint languages at every level (a catch-all `~`
+    only as the last rule of a leaf level, as shipped), through the real compiler: path-wise descent"""
     if part != 0:
         return
     text = ("a *\n"
-            "    ab\n"
+            "    ab   %timeout=4\n"
             "    no ~   %timeout=5\n"
-            "a ~   %timeout=7\n"
+            "    ~   %timeout=6\n"
+            "ab *   %timeout=7\n"
+            "    a *\n"
+            "        no   %timeout=8\n"
             "no *\n"
-            "    a\n"
-            "~   %timeout=9\n")
+            "    a   %timeout=3\n")
     deploying = rb_deploying.compile_deploying_text(text, "cisco")
     tree = parse_rule_text(text, "deploy")
-    rows = ["a x", "a x y", "ab", "no x", "no x y", "a", "b", "no", "a ab"]
+    rows = ["a x", "a x y", "ab", "ab x", "no x", "no x y", "a", "b", "no", "a ab", "zz"]
     check_deploy_paths(ctx, dict(section="deploy-nested", text=text), deploying, tree, rows)
-    sub = [(a, b) for a in rows for b in rows]
+    sub = [(a, b) for a in rows for b in rows] + [(a, b, c) for a in rows for b in rows for c in rows]
     for path in sub:
         ctx.ev += 1
         exp = ref_deploy_select(tree, path, {})
@@ -1083,19 +1210,20 @@ def run(tier="quick", seed=0, part=0, nparts=1):
     why = "; ".join("%d x %s" % (len(v), k) for k, v in sorted(stats["skipped"].items(), key=lambda kv: -len(kv[1])))
     mt = 3 if tier == "quick" else 4
     rule = ("(1) all patterns of <= %d tokens over literals {a,ab,no}, `*`, `*/[ab]+/`, `*/(a|n)o?/`, last token also `~`, `ab...`, "
-            "`~/[ab]+/`, `~/(?!a)/`, each with and without (?i), x all rows of <= 5 words over {a,ab,no,A,b,noa,abc}: "
+            "`~/[ab]+/`, each with and without (?i), x all rows of <= 5 words over %s: "
             "(compile_row_regexp(p).match(row), groups) vs the reference matcher, patching._make_reverse(p,'no').format(*key) vs "
             "<negation word + rule words with key>; (2) the patterns of <= %d tokens compiled by the real compile_patching_text "
             "(every 2nd with %%ignore_case) / compile_ordering_text / compile_acl_text / compile_deploying_text (vendor cisco): every "
             "regexp/direct_regexp/reverse_regexp, ignore_case attr, reverse template, match_deploy_rule on 1- and 2-element paths, on "
             "rows synthesised from the pattern and from its negation + near-miss mutations (word dropped/glued/inserted/continued/"
-            "truncated, extra words, case changed, doubled blank, tab, no/undo in front); a nested deploy rulebook with overlapping "
-            "siblings; (3) every rule line of every shipped .rul/.order/.deploy (14 vendors, canonical hardware + %d extra models "
+            "truncated, extra words, case changed, doubled blank, tab, no/undo in front; `~/re/` rules: single-blank rows only); a "
+            "3-level nested deploy rulebook with pairwise disjoint siblings (paths of 1-3 rows); (3) every rule line of every shipped .rul/.order/.deploy (14 vendors, canonical hardware + %d extra models "
             "covering the Mako branches, .rul also compiled as ACL) and the implicit rules of %d models, located in the real compiled "
             "objects by an independent text parser, same row synthesis. Shipped patterns: %d modelled, %d skipped as outside the "
-            "prose (%s); %d of the modelled ones have raw capturing groups (match compared, key/reverse not). Non-trivial = pattern "
+            "prose (%s); %d of the modelled ones have raw capturing groups (match compared, key/reverse not); a regex placeholder "
+            "whose regex can consume blanks binds what the regex matches (real key must be one of the feasible keys). Non-trivial = pattern "
             "with a placeholder/regex/(?i) for which both matching and non-matching rows occurred; distinct by pattern (+file)."
-            % (mt, mt - 1, sum(len(v) for v in EXTRA_HW.values()), len(IMPLICIT_MODELS), len(stats["modelled"]), nsk, why or "-",
+            % (mt, "{a,ab,no,A,b,abc}" if tier == "quick" else "{a,ab,no,A,b,abc,noa}", mt - 1, sum(len(v) for v in EXTRA_HW.values()), len(IMPLICIT_MODELS), len(stats["modelled"]), nsk, why or "-",
                len(stats["keyskip"])))
     return dict(evaluations=ctx.ev, nontrivial=sorted(ctx.nontrivial), failures=ctx.failures, samples=ctx.samples if part == 0 else [],
                 rule=rule, bound="exhaustive: patterns <= %d tokens x rows <= 5 words; all shipped rule lines x synthesised rows" % mt)
